@@ -50,43 +50,43 @@ Proof.
 Qed.
 
 (* squared separation of the real particles i and j *)
-Definition sep2 (pi pj : Part R) : R :=
-  (px pi - px pj) * (px pi - px pj) + (py pi - py pj) * (py pi - py pj) + (pz pi - pz pj) * (pz pi - pz pj).
-Lemma sep2_nonneg pi pj : 0 <= sep2 pi pj.
+Definition sep2 (soft : R) (pi pj : Part R) : R :=
+  (px pi - px pj) * (px pi - px pj) + (py pi - py pj) * (py pi - py pj) + (pz pi - pz pj) * (pz pi - pz pj) + soft * soft.
+Lemma sep2_nonneg soft pi pj : 0 <= sep2 soft pi pj.
 Proof.
   unfold sep2. generalize (px pi - px pj) (py pi - py pj) (pz pi - pz pj). intros a b c.
-  pose proof (Rle_0_sqr a). pose proof (Rle_0_sqr b). pose proof (Rle_0_sqr c). unfold Rsqr in *. lra.
+  pose proof (Rle_0_sqr a). pose proof (Rle_0_sqr b). pose proof (Rle_0_sqr c). pose proof (Rle_0_sqr soft). unfold Rsqr in *. lra.
 Qed.
 
 (* all pairs j < i < n of the particle list are at distinct positions *)
-Definition distinct (ps : list (Part R)) : Prop :=
-  forall i j, (j < i < length ps)%nat -> sep2 (nth_d (Z0P RNum) ps i) (nth_d (Z0P RNum) ps j) <> 0.
+Definition distinct (soft : R) (ps : list (Part R)) : Prop :=
+  forall i j, (j < i < length ps)%nat -> sep2 soft (nth_d (Z0P RNum) ps i) (nth_d (Z0P RNum) ps j) <> 0.
 
 (* the open-boundary ghost box (0,0,0) of a box of constant size, and zero softening, as duals *)
 Definition gb0 (bx by_ bz : R) : option D3 :=
   Some (ghostbox DR (dconst RNum bx) (dconst RNum by_) (dconst RNum bz) (0%Z, 0%Z, 0%Z)).
-Definition soft0 : R * R := nmul DR (dconst RNum 0) (dconst RNum 0).
+Definition softD (soft : R) : R * R := nmul DR (dconst RNum soft) (dconst RNum soft).
 
 (* ---------------------------------------------------------------- the algebra of one pair *)
 (* dual part of the i-side and j-side kicks of reb_calculate_acceleration's pair body (C02 pair_step with
    pf_basic) on particles varied by vi, vj  =  the right-hand sides of the first-order variational body *)
-Lemma var1_terms_dual (G bx by_ bz : R) (pi pj vi vj : Part R) :
-  sep2 pi pj <> 0 ->
+Lemma var1_terms_dual (G soft bx by_ bz : R) (pi pj vi vj : Part R) :
+  sep2 soft pi pj <> 0 ->
   let piD := dlift pi vi in
   let pjD := dlift pj vj in
   let dD := sep DR (gb0 bx by_ bz) piD pjD in
-  let rD := norm_soft DR soft0 dD in
+  let rD := norm_soft DR (softD soft) dD in
   let pf := ndiv DR (dconst RNum G) (nmul DR (nmul DR rD rD) rD) in
   let cj := nmul DR (nneg DR pf) (pm pjD) in
   let ci := nmul DR pf (pm piD) in
   let '(dx, dy, dz) := dD in
-  let '(ti, tj) := var1_terms RNum G pi pj vi vj in
+  let '(ti, tj) := var1_terms RNum (soft * soft) G pi pj vi vj in
   dp3 (nmul DR cj dx, nmul DR cj dy, nmul DR cj dz) = ti /\
   dp3 (nmul DR ci dx, nmul DR ci dy, nmul DR ci dz) = (let '(a, b, c) := tj in (- a, - b, - c)).
 Proof.
   intros Hne.
   destruct pi as [mi xi yi zi], pj as [mj xj yj zj], vi as [dmi dxi dyi dzi], vj as [dmj dxj dyj dzj].
-  remember (sep2 (mkP mi xi yi zi) (mkP mj xj yj zj)) as r2 eqn:Er2.
+  remember (sep2 soft (mkP mi xi yi zi) (mkP mj xj yj zj)) as r2 eqn:Er2.
   assert (Hr2 : 0 <= r2) by (subst r2; apply sep2_nonneg).
   cbn. unfold sep2 in Er2. cbn in Er2.
   rewrite <- Er2.
@@ -121,13 +121,13 @@ Proof.
   cbn. assert (E : forall u v : R, u + - v = u - v) by (intros; ring). rewrite !E. reflexivity.
 Qed.
 
-Lemma pair_step_dual (G bx by_ bz : R) (back : bool) pds i j (accD : list D3) :
-  sep2 (nth_d (Z0P RNum) (map fst pds) i) (nth_d (Z0P RNum) (map fst pds) j) <> 0 ->
-  map dp3 (pair_step DR (pf_basic DR (dconst RNum G)) back (gb0 bx by_ bz) soft0 (dlifts pds) i j accD)
-  = var1_pair RNum G back (map fst pds) (map snd pds) i j (map dp3 accD).
+Lemma pair_step_dual (G soft bx by_ bz : R) (back : bool) pds i j (accD : list D3) :
+  sep2 soft (nth_d (Z0P RNum) (map fst pds) i) (nth_d (Z0P RNum) (map fst pds) j) <> 0 ->
+  map dp3 (pair_step DR (pf_basic DR (dconst RNum G)) back (gb0 bx by_ bz) (softD soft) (dlifts pds) i j accD)
+  = var1_pair RNum (soft * soft) G back (map fst pds) (map snd pds) i j (map dp3 accD).
 Proof.
   intros Hne. unfold pair_step, var1_pair, pf_basic. rewrite !nth_dlifts.
-  pose proof (var1_terms_dual G bx by_ bz _ _ (nth_d (Z0P RNum) (map snd pds) i)
+  pose proof (var1_terms_dual G soft bx by_ bz _ _ (nth_d (Z0P RNum) (map snd pds) i)
                 (nth_d (Z0P RNum) (map snd pds) j) Hne) as H.
   cbv zeta in H. revert H.
   destruct (sep DR _ _ _) as [[dx dy] dz].
@@ -138,20 +138,20 @@ Proof.
 Qed.
 
 (* ---------------------------------------------------------------- first order, all N *)
-Theorem var1_is_dual_part (G bx by_ bz : R) (ign nact : nat) (tp : bool) (pds : list (Part R * Part R)) :
+Theorem var1_is_dual_part (G soft bx by_ bz : R) (ign nact : nat) (tp : bool) (pds : list (Part R * Part R)) :
   let ps := map fst pds in
   let dps := map snd pds in
-  distinct ps -> (nact <= length pds)%nat ->
-  map dp3 (grav_basic DR (dconst RNum G) (dconst RNum 0) (dconst RNum bx) (dconst RNum by_) (dconst RNum bz)
+  distinct soft ps -> (nact <= length pds)%nat ->
+  map dp3 (grav_basic DR (dconst RNum G) (dconst RNum soft) (dconst RNum bx) (dconst RNum by_) (dconst RNum bz)
              0 0 0 ign nact tp (dlifts pds))
-  = grav_var1 RNum G ign nact tp ps dps.
+  = grav_var1 RNum (soft * soft) G ign nact tp ps dps.
 Proof.
   intros ps dps Hd Hn. unfold grav_basic, grav_var1.
   assert (Hlen : length (dlifts pds) = length ps) by (unfold dlifts, ps; now rewrite !map_length).
   assert (Hlp : length ps = length pds) by (unfold ps; now rewrite map_length).
   rewrite Hlen. change (boxes 0 0 0) with [(0%Z, 0%Z, 0%Z)]. cbn [fold_left].
   unfold pair_loops. cbv zeta.
-  fold soft0. fold (gb0 bx by_ bz).
+  fold (softD soft). fold (gb0 bx by_ bz).
   apply (for_range_rel (fun (aD : list D3) a => map dp3 aD = a)).
   - intros i aD a Hi E. apply (for_range_rel (fun (aD : list D3) a => map dp3 aD = a)); [|exact E].
     intros j bD b Hj E2. rewrite <- E2. apply pair_step_dual. apply Hd. fold ps. lia.
@@ -169,17 +169,17 @@ Proof.
   unfold clifts. change (Z0P DR) with ((fun p => dlift p (Z0P RNum)) (Z0P RNum)). now rewrite nth_d_map.
 Qed.
 
-Lemma var1_tp_step_dual (G : R) ps (x y z dvx dvy dvz : R) i j (aD : D3) :
+Lemma var1_tp_step_dual (G soft : R) ps (x y z dvx dvy dvz : R) i j (aD : D3) :
   (x, y, z) = (px (nth_d (Z0P RNum) ps i), py (nth_d (Z0P RNum) ps i), pz (nth_d (Z0P RNum) ps i)) ->
-  sep2 (nth_d (Z0P RNum) ps i) (nth_d (Z0P RNum) ps j) <> 0 ->
-  dp3 (acc_on_step DR (dconst RNum G) (clifts ps) ((x, dvx), (y, dvy), (z, dvz)) j aD)
-  = var1_tp_step RNum G ps (dvx, dvy, dvz) i j (dp3 aD).
+  sep2 soft (nth_d (Z0P RNum) ps i) (nth_d (Z0P RNum) ps j) <> 0 ->
+  dp3 (acc_on_step DR (softD soft) (dconst RNum G) (clifts ps) ((x, dvx), (y, dvy), (z, dvz)) j aD)
+  = var1_tp_step RNum (soft * soft) G ps (dvx, dvy, dvz) i j (dp3 aD).
 Proof.
   intros Exyz Hne. unfold acc_on_step, var1_tp_step. rewrite nth_clifts.
   destruct (nth_d (Z0P RNum) ps i) as [mi xi yi zi]. destruct (nth_d (Z0P RNum) ps j) as [mj xj yj zj].
   cbn in Exyz. injection Exyz as -> -> ->.
   destruct aD as [[[ax ax'] [ay ay']] [az az']].
-  remember (sep2 (mkP mi xi yi zi) (mkP mj xj yj zj)) as r2 eqn:Er2.
+  remember (sep2 soft (mkP mi xi yi zi) (mkP mj xj yj zj)) as r2 eqn:Er2.
   assert (Hr2 : 0 <= r2) by (subst r2; apply sep2_nonneg).
   cbn. unfold sep2 in Er2. cbn in Er2. rewrite <- Er2.
   remember (sqrt r2) as s eqn:Es.
@@ -191,12 +191,12 @@ Qed.
 
 (* the variational acceleration of a test-particle variation of particle i is the derivative of the
    acceleration of particle i with respect to its own position, in the direction dv *)
-Theorem var1_testparticle_is_dual_part (G : R) (ign : nat) (ps : list (Part R)) (dvx dvy dvz : R) (i : nat) :
+Theorem var1_testparticle_is_dual_part (G soft : R) (ign : nat) (ps : list (Part R)) (dvx dvy dvz : R) (i : nat) :
   (forall j, (j < length ps)%nat -> j <> i ->
-             sep2 (nth_d (Z0P RNum) ps i) (nth_d (Z0P RNum) ps j) <> 0) ->
+             sep2 soft (nth_d (Z0P RNum) ps i) (nth_d (Z0P RNum) ps j) <> 0) ->
   let pi := nth_d (Z0P RNum) ps i in
-  dp3 (acc_on DR (dconst RNum G) ign (clifts ps) ((px pi, dvx), (py pi, dvy), (pz pi, dvz)) i)
-  = grav_var1_tp RNum G ign ps (dvx, dvy, dvz) i.
+  dp3 (acc_on DR (softD soft) (dconst RNum G) ign (clifts ps) ((px pi, dvx), (py pi, dvy), (pz pi, dvz)) i)
+  = grav_var1_tp RNum (soft * soft) G ign ps (dvx, dvy, dvz) i.
 Proof.
   intros Hd pi. unfold acc_on, grav_var1_tp.
   replace (length (clifts ps)) with (length ps) by (unfold clifts; now rewrite map_length).
